@@ -106,8 +106,8 @@ func NewFloatFromString(typ *types.FloatType, s string) (*Float, error) {
 			// the remaining digits the second word; if there are fewer than 16
 			// digits the first word is zero (e.g. for case like `0xL01`).
 			part1, part2 := "0", hex
-			if len(hex) > maxHexLen/2 {
-				part1, part2 = hex[:maxHexLen/2], hex[maxHexLen/2:]
+			if len(hex) >= maxHexLen/2 {
+				part1, part2 = hex[:maxHexLen/2], "0"+hex[maxHexLen/2:]
 			}
 			a, err := strconv.ParseUint(part1, 16, 64)
 			if err != nil {
@@ -135,8 +135,8 @@ func NewFloatFromString(typ *types.FloatType, s string) (*Float, error) {
 			// and the remaining digits the second double; if there are fewer than
 			// 16 digits the first double is zero (e.g. for case like `0xM01`).
 			part1, part2 := "0", hex
-			if len(hex) > maxHexLen/2 {
-				part1, part2 = hex[:maxHexLen/2], hex[maxHexLen/2:]
+			if len(hex) >= maxHexLen/2 {
+				part1, part2 = hex[:maxHexLen/2], "0"+hex[maxHexLen/2:]
 			}
 			a, err := strconv.ParseUint(part1, 16, 64)
 			if err != nil {
